@@ -88,6 +88,10 @@ def rule_r2_r3_r4(ctx, rep, sl, mps):
         ft = w.types(fi)
         pairs, orphans = report_sites(ctx, fi, mp)
         for p in pairs:
+            if p.helper:
+                # the generic pair of a reporting helper: class and code are bound at its call sites, which are counted instead
+                rep.notes.append(f"{fi.qname} is a reporting helper (raise/append pair parameterised by its arguments)")
+                continue
             rep.count("raise/append pairs")
             rep.oblige(("R2", fi.qname, norm(p.raise_node.exc)[:60], str(p.code)), True,
                        sample={"pair in": fi.qname.rsplit(".", 1)[-1], "raises": ctx.hier.short(p.exc_cls),
@@ -95,16 +99,27 @@ def rule_r2_r3_r4(ctx, rep, sl, mps):
             # R4 tuple shape
             rep.count("appended tuples")
             tup = p.append_call.args[0] if p.append_call.args else None
+            tfi, tft = fi, ft
+            if p.via_helper:
+                # the tuple is built inside the helper; its first element is the code bound at this call site
+                H = prog.func(p.via_helper)
+                hp, _ = report_sites(ctx, H, mode_params(ctx, [H]).get(H.qname))
+                hp = [x for x in hp if x.helper]
+                tup = hp[0].append_call.args[0] if hp and hp[0].append_call.args else None
+                tfi, tft = H, w.types(H)
             ok = isinstance(tup, ast.Tuple) and len(tup.elts) >= 3
             why = "appended value is not a tuple of at least (code, message, node)"
             if ok:
-                code = prog.const(fi.module, tup.elts[0])
+                code = p.code if p.via_helper else prog.const(fi.module, tup.elts[0])
+                fi_, ft_ = fi, ft
+                fi, ft = tfi, tft
                 if not (isinstance(code, EnumMember) and code.cls == VERR and code.member in members):
                     ok, why = False, f"element 0 `{norm(tup.elts[0])}` is not a declared ValidationError member"
                 elif ft.type_of(tup.elts[1]) != T_STR:
                     ok, why = False, f"element 1 `{norm(tup.elts[1])}` is not the message string"
                 elif ft.type_of(tup.elts[2]) not in (T_NODE, T_OPT):
                     ok, why = False, f"element 2 `{norm(tup.elts[2])}` is not the offending node"
+                fi, ft = fi_, ft_
             rep.oblige(("R4", fi.qname, norm(tup)[:80] if tup is not None else "?"), ok)
             if not ok:
                 rep.add("R4", fi.qname, p.append_call, why, fi.loc(p.append_call))
@@ -150,7 +165,7 @@ def rule_r2_r3_r4(ctx, rep, sl, mps):
 def rule_r5(ctx, rep):
     prog = ctx.prog
     fi = prog.func("metapype.eml.validate.node")
-    mps = mode_params(ctx, [fi])
+    mps = mode_params(ctx, reachable(ctx, [fi]))
     mp = mps.get(fi.qname)
     pairs, _ = report_sites(ctx, fi, mp) if mp else ([], [])
     rep.count("unknown-name report")
@@ -179,8 +194,11 @@ def rule_termination(ctx, rep, sl):
             # variables compared with `<`/`<=` in the test
             adv = set()
             for c in ast.walk(n.test):
-                if isinstance(c, ast.Compare) and isinstance(c.ops[0], (ast.Lt, ast.LtE)):
+                if isinstance(c, ast.Compare) and isinstance(c.ops[0], (ast.Lt, ast.LtE)) and "len(" in norm(c.comparators[0]):
                     adv.add(norm(c.left))
+            if not adv:
+                rep.notes.append(f"termination of `while {norm(n.test)[:50]}` in {fi.qname} is not decided (not a cursor-below-length loop)")
+                continue
             ok = False
             for s in n.body:  # top-level statements of the body execute on every iteration that completes
                 if isinstance(s, ast.AugAssign) and isinstance(s.op, ast.Add) and norm(s.target) in adv:
